@@ -168,12 +168,14 @@ def designs(draw, max_mods=4, max_prims=3, max_insts=4, max_w=4):
             params = {}
             if draw(st.integers(0, 2)) == 0:
                 params = draw(st.dictionaries(st.sampled_from(["INIT", "WIDTH", "MODE"]),
-                                              st.sampled_from(["4'h8", "2", "\"FAST\"", "16'hABCD"]),
+                                              st.sampled_from(["4'h8", "2", "\"FAST\"", "16'hABCD", "\"boot image.mem\"",
+                                                               "\"a\tb  c\""]),
                                               min_size=1, max_size=2))
             attrs = {}
             if draw(st.integers(0, 2)) == 0:
                 attrs = draw(st.dictionaries(st.sampled_from(["KEEP", "LOC", "DONT_TOUCH"]),
-                                             st.one_of(st.none(), st.sampled_from(["\"X0Y1\"", "1", "\"yes\""])),
+                                             st.one_of(st.none(), st.sampled_from(["\"X0Y1\"", "1", "\"yes\"",
+                                                                                   "\"X0 Y1\""])),
                                              min_size=1, max_size=2))
             insts.append({"name": iname, "target": [kind, idx], "positional": positional, "conns": conns,
                           "params": params, "attrs": attrs,
